@@ -32,3 +32,24 @@ claim("C19", PBT + ": replay with full recount (validity predicate, ties explore
 claim("C20", PBT + ": sequential recount, top-k validity predicate, cross-thread equality, save/load round trip, closest-entry predicate",
   "Generated corpora x max_size x max_sequences x threads x modes x queries.",
   "General profile uses the crate's split_words() for the line->token map; the plain profile is fully independent.")
+claim("C06", PBT + ": partition / limit / termination / determinism / greedy-maximality predicates",
+  "Generated item-size vectors x all batching configurations; batches must partition the ids, respect the limit, end within n+2 calls, be a function of the seed, and (without sort/shuffle) be in order and greedy-maximal.",
+  "batch_limit 0 / prefetch 0 are clamped to 1 by the constructor; a non-returning next() is caught by the watchdog.")
+claim("C10", PBT + ": inverse law + code-point-level metamorphic relation",
+  "Generated pairs of clean whitespace variants (inverse law), arbitrary strings x arbitrary operation vectors (only whitespace changes, identity, Err on length mismatch), arbitrary pairs (totality).",
+  "Grapheme mode: inverse law on closed-pool (segmentation-stable) texts; KF2 recorded outside.")
+claim("C11", PBT + ": std split_whitespace as reference model, independent boundary scan",
+  "Generated Unicode strings (every White_Space code point, CRLF, zero-width non-spaces, hazards); clean/word_boundaries/remove/full compared with independent models; idempotence.",
+  "Grapheme mode: segmentation-stable strings (KF1 recorded outside); unstable ones run for totality.")
+claim("C14", PBT + ": metamorphic relations through the real preprocessing + task functions",
+  "Generated clean texts x probabilities x seeds x modes, run through preprocessing(WhitespaceCorruption) and train_task(WhitespaceCorrection): only whitespace changes, output clean, repair/operations recover the original, label count, determinism on fresh instances, p=0 laws, (0,0) rejected.",
+  "Grapheme mode on closed-pool texts (KF2); needs the TrainData read accessors of hook H3.")
+claim("C16", PBT + ": tiling / bounds / slice-equality predicates with an independent prefix-sum table",
+  "Generated strings with 1-4 byte characters and wide clusters x max x context (incl. invalid) x char/byte/full x graphemes; Err exactly where the statement allows it, otherwise exact tiling and size limits.",
+  "Sizes below 2^20; in byte mode a band of character widths where both outcomes are legitimate is accepted.")
+claim("C17", PBT + ": exact expected group structure, COO-matrix invariants, padding invariants",
+  "Generated batches of texts x byte tokenizer configs x tasks; groups compared with the independent scanner's structure, sparse matrix and padded tensors checked entry by entry.",
+  "Needs hooks H1 (tensor views) and H3; f32 tolerance 1e-5.")
+claim("C18", PBT + ": textbook LCS as reference + validity predicate on the matching",
+  "Generated pairs of word sequences with repeats and case variants x ignore_case; matching must be strictly increasing, consist of equal words and have LCS length; edited_words are the complements.",
+  "ASCII whitespace separators; case-insensitive equality = to_lowercase equality.")
